@@ -1159,6 +1159,9 @@ def check_c15(model, rep, tier):
     r_cid_glue(model, rep)
     r_cid_format(model, rep)
     r_legacy_compose(model, rep)
+    # the legacy reader (date, type and respin decoded from the id) runs only when the header's version gate says so
+    from .validation import r_version_tuple_fresh
+    r_version_tuple_fresh(model, rep)
     r_stateless(model, rep, [model.function("composeinfo", "get_date_type_respin"), model.own_method("composeinfo.ComposeInfo", "create_compose_id"),
                              model.own_method("composeinfo.Compose", "type_suffix"), model.own_method("composeinfo.BaseProduct", "type_suffix")])
     rep.extra["exhaustive"] = True
